@@ -343,6 +343,14 @@ def s2_small(tier):
             out.append(spec([Aw2, B3], cross(['A', 'B'], ['A', 'B'], ex, rcc), 'S2'))
         out.append(spec([Aw2, B3, Wx], cross(['A', 'B', 'W'], ['A', 'W'], [], rcc), 'S2'))
         out.append(spec([Aw2, B3, Wx], cross(['A', 'B', 'W'], ['A', 'W'], [{'c': 'Exclude', 'factor': 'W', 'level': 'w1'}], rcc), 'S2'))
+    # weighted levels of a crossed within-trial factor whose levels have DIFFERENT numbers of source completions (1 x 'same', 2 x 'different'
+    # per value of A), so that copies per combination and options per combination are both non-uniform, on a small sequence space
+    A2 = basic('A', 2)
+    fmy = {'A': A2, 'B': B3}
+    for wts in ([1, 2], [2, 1]):
+        Wy = within('W', ['A', 'B'], fmy, same, weights=wts)
+        out.append(spec([A2, B3, Wy], cross(['A', 'B', 'W'], ['W'], []), 'S2'))
+        out.append(spec([A2, B3, Wy], cross(['A', 'B', 'W'], ['W'], [{'c': 'MinimumTrials', 'k': 4}]), 'S2'))
     # a hidden weight factor (weighted, outside the crossing) under Merge / Repeat / MultiCrossBlock
     Aw = basic('A', 2, [2, 1])
     Bu = basic('B', 2)
